@@ -47,7 +47,7 @@ class C16(Harness):
     fuel = 400000
     bounds = {'quick': {'token_chars': 1}, 'thorough': {'token_chars': 2}}
     assumptions = ['every struct in the workspace deriving FromDeb822/ToDeb822 (field tables read from the current source); test structs inside #[cfg(test)] modules are not part of the library MIR',
-                   'String / Option<String> fields take symbolic alphanumeric tokens; fields of other types take a value accepted by the real code (found by native probing of a small pool) - the conversion plumbing is decided symbolically, those codecs on the probed value',
+                   'String / Option<String> fields take symbolic alphanumeric tokens (the focus field also with a trailing blank); fields of other types take a value accepted by the real code (found by native probing of a small pool) - the conversion plumbing is decided symbolically, those codecs on the probed value',
                    'one case per field: that field present/absent in the value and in the prior paragraph (solver choices), other optional fields absent; plus one case with every field present',
                    'prior paragraph for update_paragraph: one foreign field before the own fields; on the lossless back-end additionally built from text with a comment and unusual spacing that must survive',
                    'error clause: each mandatory field removed in turn; each non-string field given a symbolic 1-character value']
@@ -94,7 +94,10 @@ class C16(Harness):
         key = tuple(case['key']); ty = mir_type(key); crate = key[0]
         fields = case['fields']; fam = case['fam']; focus = case['focus']
         def val_for(f):
-            if f['stringy']: return alnum_tok(e, 'v', case['n'])
+            if f['stringy']:
+                t = alnum_tok(e, 'v', case['n'])
+                # a value may end in a blank: it is content (C03) and must survive the conversion
+                return Str(list(t.chars) + [32]) if (f['field'] == focus and e.choose('tsp', 2)) else t
             return mkstr(f['good'])
         present = {}
         for f in fields:
